@@ -1,6 +1,6 @@
 (** C04 — initial states, and the theorems that follow from the invariant. *)
 From Coq Require Import Permutation Sorted.
-From Akita Require Import Lib.Base Lib.Lts C04.Model C04.Proofs1 C04.Proofs2.
+From Akita Require Import Lib.Base Lib.Lts C04.Model C04.Proofs1 C04.Proofs2 C04.Proofs2b.
 Local Open Scope N_scope.
 
 Lemma kids_causal prog : causal prog.
@@ -42,7 +42,7 @@ Qed.
 Lemma PreInv_push e s : PreInv s -> PreInv (push_init e s) /\ e_sched (push_init e s) = e :: e_sched s.
 Proof.
   intros [H1 H2 H3 H4 H5 H6 H7 H8 H9 H10 H11 H12 H13 H14 H15 H16 H17 H18].
-  destruct s as [pc nq now sec pqs sqs pch sch ws panic schd handled trace rounds].
+  destruct s as [pc nq now sec pqs sqs pch sch ws panic schd handled trace rounds ext].
   unfold push_init, queued in *. cbn [e_pc e_nq e_now e_sec e_pqs e_sqs e_pch e_sch e_ws e_panic e_sched e_handled e_trace e_rounds] in *.
   destruct (ev_sec e) eqn:Es.
   - destruct sch as [|q r]; [congruence|]. inversion H11; subst. split; [|reflexivity].
@@ -88,21 +88,39 @@ Proof.
   - rewrite H4. unfold max_time. lia.
 Qed.
 
-(** the run finished only with empty queues *)
-Definition Inv2 prog init (s : est) : Prop := Inv prog init s /\ (e_pc s = EDone -> queued s = []).
+(** Inv does not mention the pause lock / controller part of the state *)
+Lemma Inv_set_ext prog init s x : Inv prog init s -> Inv prog init (set_ext s x).
+Proof. intros [? ? ? ? ? ? ? ? ? ? ? ? ? ? ? ?]. constructor; auto. Qed.
 
-Lemma Inv2_step prog init : causal prog -> inductive (step prog) (Inv2 prog init).
+Lemma FInv_init prog nq init script : (1 <= nq)%nat -> cwf false script = true ->
+  FInv prog init (e_init_ctl nq init script).
 Proof.
-  intros Hc t s s' [HI Hd] Hstep. split; [eapply Inv_step; eauto|].
+  intros Hn Hc. split; [apply Inv_set_ext, Inv_init, Hn|].
+  destruct (PreInv_fold init _ (PreInv_empty nq Hn)) as [H _]. fold (e_init nq init) in H.
+  unfold e_init_ctl. constructor; unfold hold; cbn [set_ext e_ext e_pc x_plock x_script x_cheld].
+  - rewrite (p_pc _ H). split; discriminate.
+  - exact Hc.
+  - intros q c E. discriminate.
+Qed.
+
+(** Run returns only with empty queues (unless the controller scheduled after that) *)
+Definition Inv2 prog init (s : est) : Prop :=
+  FInv prog init s /\ (e_pc s = EDone -> x_late (e_ext s) = false -> queued s = []).
+
+Lemma Inv2_step prog init : inductive (step prog false) (Inv2 prog init).
+Proof.
+  intros t s s' [HF Hd] Hstep. pose proof (FInv_step prog init t s s' HF Hstep) as HF'. split; [exact HF'|].
+  destruct HF as [HI HL]. destruct HF' as [HI' _]. pose proof (i_panic _ _ _ HI') as Hnp.
   unfold step in Hstep. rewrite (i_panic _ _ _ HI) in Hstep.
-  destruct s as [pc nq now sec pqs sqs pch sch ws panic schd handled trace rounds].
-  destruct t as [|i].
-  - unfold step_engine in Hstep. cbn [e_pc e_nq e_now e_sec e_pqs e_sqs e_pch e_sch e_ws e_panic e_sched e_handled e_trace e_rounds] in Hstep.
-    pose proof (i_ge _ _ _ HI) as Hge. unfold queued in *. cbn [e_pc e_nq e_now e_sec e_pqs e_sqs] in *.
+  destruct s as [pc nq now sec pqs sqs pch sch ws panic schd handled trace rounds [plock script cheld late]].
+  destruct t as [|i|].
+  - unfold step_engine in Hstep. cbn [e_pc e_nq e_now e_sec e_pqs e_sqs e_pch e_sch e_ws e_panic e_sched e_handled e_trace e_rounds e_ext x_plock x_script x_cheld x_late] in Hstep.
+    unfold queued in *.
     destruct pc.
     + destruct (all_empty pqs && all_empty sqs) eqn:Ea; inversion Hstep; subst; cbn; try discriminate.
-      intros _. apply andb_true_iff in Ea. destruct Ea as [Ea1 Ea2].
+      intros _ _. apply andb_true_iff in Ea. destruct Ea as [Ea1 Ea2].
       rewrite (all_empty_concat _ Ea1), (all_empty_concat _ Ea2). reflexivity.
+    + destruct plock; inversion Hstep; subst; cbn; discriminate.
     + destruct (earliest pqs <=? earliest sqs); inversion Hstep; subst; cbn; discriminate.
     + destruct (j <? nq)%nat; [destruct sec; [destruct sch|destruct pch]|]; inversion Hstep; subst; cbn; discriminate.
     + destruct (i <? nq)%nat; [|inversion Hstep; subst; cbn; discriminate].
@@ -110,18 +128,17 @@ Proof.
       destruct sec.
       * destruct (nth i sqs []) as [|x r] eqn:En; [inversion Hstep; subst; cbn; discriminate|].
         destruct (ev_time x =? now); [inversion Hstep; subst; cbn; discriminate|].
-        destruct (ev_time x <? now) eqn:Elt; [|inversion Hstep; subst; cbn; discriminate].
-        exfalso. pose proof (Forall_perm _ _ _ (queued_pop_s i pqs sqs x r En) Hge) as Hg. inversion Hg; subst. lia.
+        destruct (ev_time x <? now) eqn:Elt; inversion Hstep; subst; cbn in *; discriminate.
       * destruct (nth i pqs []) as [|x r] eqn:En; [inversion Hstep; subst; cbn; discriminate|].
         destruct (ev_time x =? now); [inversion Hstep; subst; cbn; discriminate|].
-        destruct (ev_time x <? now) eqn:Elt; [|inversion Hstep; subst; cbn; discriminate].
-        exfalso. pose proof (Forall_perm _ _ _ (queued_pop_p i pqs sqs x r En) Hge) as Hg. inversion Hg; subst. lia.
+        destruct (ev_time x <? now) eqn:Elt; inversion Hstep; subst; cbn in *; discriminate.
     + destruct (all_finished ws); inversion Hstep; subst; cbn; discriminate.
+    + inversion Hstep; subst; cbn; discriminate.
     + discriminate.
-  - (* a worker step never happens in, nor leads to, EDone *)
-    intro Hpc'.
+  - (* a worker step never happens in EDone (no workers there) and keeps the pc *)
+    intros Hpc' _.
     assert (Hpc : pc = EDone).
-    { unfold step_worker in Hstep. cbn [e_pc e_nq e_now e_sec e_pqs e_sqs e_pch e_sch e_ws e_panic e_sched e_handled e_trace e_rounds] in Hstep.
+    { unfold step_worker in Hstep. cbn [e_pc e_nq e_now e_sec e_pqs e_sqs e_pch e_sch e_ws e_panic e_sched e_handled e_trace e_rounds e_ext] in Hstep.
       destruct (nth_error ws i) as [[e st]|] eqn:En; [|discriminate].
       destruct st as [|todo held|]; [| |discriminate].
       - inversion Hstep; subst. exact Hpc'.
@@ -129,37 +146,44 @@ Proof.
         + inversion Hstep; subst. exact Hpc'.
         + destruct held.
           * destruct (ev_sec c); inversion Hstep; subst; exact Hpc'.
-          * destruct (ev_time c <? now) eqn:Elt.
-            -- exfalso. pose proof (i_ws _ _ _ HI) as Hws. cbn [e_ws e_now e_sec e_nq] in Hws.
-               assert (Hw : w_ok prog now sec nq (e, WRun (c :: r) None)).
-               { rewrite Forall_forall in Hws. apply Hws. eapply nth_error_In; eauto. }
-               destruct Hw as [Ht [_ [Htodo _]]]. cbn [fst snd] in *.
-               specialize (Htodo c (or_introl eq_refl)). apply Hc in Htodo. lia.
-            -- destruct (ev_sec c); [destruct sch|destruct pch]; inversion Hstep; subst; try exact Hpc'. }
+          * destruct (ev_time c <? now) eqn:Elt; [inversion Hstep; subst; cbn in Hnp; discriminate|].
+            destruct (ev_sec c); [destruct sch|destruct pch]; inversion Hstep; subst; try exact Hpc'. }
     subst pc. pose proof (i_idle _ _ _ HI eq_refl) as Hws. cbn [e_ws] in Hws. subst ws.
     unfold step_worker in Hstep. cbn [e_ws] in Hstep. destruct i; discriminate.
+  - (* the controller never changes the pc; a push after Run returned is recorded as late *)
+    unfold step_ctl in Hstep. cbn [e_pc e_nq e_now e_sec e_pqs e_sqs e_pch e_sch e_ws e_panic e_sched e_handled e_trace e_rounds e_ext x_plock x_script x_cheld x_late set_ext set_panic] in Hstep.
+    cbn [e_pc e_ext x_late] in Hd. unfold queued in *. cbn [e_pqs e_sqs] in Hd.
+    destruct cheld as [[q c]|].
+    + destruct script as [|[|id d sc|] r]; try discriminate.
+      destruct (ev_sec c); inversion Hstep; subst; cbn; intros Hp Hl; subst pc; cbn in Hl; rewrite orb_true_r in Hl; discriminate.
+    + destruct script as [|[|id d sc|] r]; [discriminate| | |].
+      * destruct plock; inversion Hstep; subst; cbn; auto.
+      * destruct sc; [destruct sch|destruct pch]; inversion Hstep; subst; cbn; auto.
+      * destruct plock; inversion Hstep; subst; cbn in *; auto; discriminate.
 Qed.
 
 Section Theorems.
   Variable prog : program.
-  Let Hcausal : causal prog := kids_causal prog.
-  Variables (nq : nat) (init : list ev).
+  Variables (nq : nat) (init : list ev) (script : list cop).
   Hypothesis Hnq : (1 <= nq)%nat.
+  Hypothesis Hscript : cwf false script = true.
 
-  Lemma reach_inv o : Inv2 prog init (e_run prog o (e_init nq init)).
+  Definition e_run := run (step prog false).
+
+  Lemma reach_inv o : Inv2 prog init (e_run o (e_init_ctl nq init script)).
   Proof.
-    apply (run_invariant (step prog) (Inv2 prog init) (Inv2_step prog init Hcausal)).
-    split; [apply Inv_init; exact Hnq|].
+    apply (run_invariant (step prog false) (Inv2 prog init) (Inv2_step prog init)).
+    split; [apply FInv_init; assumption|].
     destruct (PreInv_fold init _ (PreInv_empty nq Hnq)) as [H _]. fold (e_init nq init) in H.
-    rewrite (p_pc _ H). discriminate.
+    unfold e_init_ctl. cbn [set_ext e_pc]. rewrite (p_pc _ H). discriminate.
   Qed.
 
   (** time order and round discipline, for every interleaving *)
   Theorem par_time_order o :
-    let s := e_run prog o (e_init nq init) in
+    let s := e_run o (e_init_ctl nq init script) in
     par_trace_ok init (rev (e_trace s)) = true /\ e_panic s = false /\ mono_from (e_now s) (e_rounds s) = true.
   Proof.
-    intro s. destruct (reach_inv o) as [HI _]. fold s in HI.
+    intro s. destruct (reach_inv o) as [[HI _] _]. fold s in HI.
     destruct (i_acc _ _ _ HI) as [live [open [Hacc _]]].
     split; [|split].
     - unfold par_trace_ok, accepts. rewrite Hacc. reflexivity.
@@ -167,44 +191,46 @@ Section Theorems.
     - apply (i_mono _ _ _ HI).
   Qed.
 
-  (** exactly once, for every interleaving: when Run returns every scheduled
-      event has been handled, and at every moment scheduled = handled + live *)
+  (** exactly once, for every interleaving: at every moment scheduled = handled +
+      live; when Run returns (and the controller did not schedule after that)
+      every scheduled event has been handled *)
   Theorem par_exactly_once o :
-    let s := e_run prog o (e_init nq init) in
+    let s := e_run o (e_init_ctl nq init script) in
     Permutation (e_sched s) (e_handled s ++ pending_ws (e_ws s) ++ queued s) /\
-    (e_pc s = EDone -> Permutation (e_handled s) (e_sched s)).
+    (e_pc s = EDone -> x_late (e_ext s) = false -> Permutation (e_handled s) (e_sched s)).
   Proof.
-    intro s. destruct (reach_inv o) as [HI Hd]. fold s in HI, Hd.
+    intro s. destruct (reach_inv o) as [[HI _] Hd]. fold s in HI, Hd.
     split; [apply (i_cons _ _ _ HI)|].
-    intro Hpc. pose proof (i_cons _ _ _ HI) as Hc. unfold live_of in Hc.
-    rewrite (Hd Hpc), (i_idle _ _ _ HI) in Hc by (rewrite Hpc; reflexivity).
+    intros Hpc Hl. pose proof (i_cons _ _ _ HI) as Hc. unfold live_of in Hc.
+    rewrite (Hd Hpc Hl), (i_idle _ _ _ HI) in Hc by (rewrite Hpc; reflexivity).
     cbn in Hc. rewrite app_nil_r in Hc. apply Permutation_sym, Hc.
   Qed.
 
   (** state form of the barrier: every executing or spawned handler has the
       round's time and phase; every queued event is not earlier. *)
   Theorem par_state_order o :
-    let s := e_run prog o (e_init nq init) in
+    let s := e_run o (e_init_ctl nq init script) in
     Forall (fun w => ev_time (fst w) = e_now s /\ ev_sec (fst w) = e_sec s) (e_ws s) /\
     Forall (fun x => e_now s <= ev_time x) (queued s).
   Proof.
-    intro s. destruct (reach_inv o) as [HI _]. fold s in HI. split; [|apply (i_ge _ _ _ HI)].
+    intro s. destruct (reach_inv o) as [[HI _] _]. fold s in HI. split; [|apply (i_ge _ _ _ HI)].
     eapply Forall_impl; [|apply (i_ws _ _ _ HI)]. intros w [A [B _]]. auto.
   Qed.
 
-  (** a secondary round at t begins only when no handler is live and every queued
-      primary is strictly later than t *)
+  (** a secondary round at t begins (determineWhatToRun, under the pause lock) only
+      when no handler is live and every queued primary is strictly later than t *)
   Theorem par_secondary_round_clean o s' :
-    let s := e_run prog o (e_init nq init) in
-    e_pc s = EDetermine -> step prog TE s = Some s' -> e_sec s' = true ->
-    e_ws s' = [] /\ Forall (fun x => e_now s' < ev_time x) (concat (e_pqs s')).
+    let s := e_run o (e_init_ctl nq init script) in
+    e_pc s = EDetermine -> step prog false TE s = Some s' -> e_sec s' = true ->
+    e_ws s' = [] /\ Forall (fun x => e_now s' < ev_time x) (concat (e_pqs s')) /\ x_plock (e_ext s') = Some false.
   Proof.
-    intros s Hpc Hstep Hsec. destruct (reach_inv o) as [HI _]. fold s in HI.
+    intros s Hpc Hstep Hsec. destruct (reach_inv o) as [[HI HL] _]. fold s in HI, HL.
     unfold step in Hstep. rewrite (i_panic _ _ _ HI) in Hstep. unfold step_engine in Hstep. rewrite Hpc in Hstep.
     pose proof (i_idle _ _ _ HI) as Hidle. rewrite Hpc in Hidle. specialize (Hidle eq_refl).
     pose proof (earliest_le _ (i_sortp _ _ _ HI)) as Hep.
+    assert (Hp : x_plock (e_ext s) = Some false) by (apply (l_lock _ HL); rewrite Hpc; reflexivity).
     destruct (earliest (e_pqs s) <=? earliest (e_sqs s)) eqn:Ec; inversion Hstep; subst s'; cbn in *; [discriminate|].
-    split; [exact Hidle|]. eapply Forall_impl; [|exact Hep]. cbn. intros a Ha. lia.
+    split; [exact Hidle|]. split; [|exact Hp]. eapply Forall_impl; [|exact Hep]. cbn. intros a Ha. lia.
   Qed.
 End Theorems.
 
@@ -215,10 +241,10 @@ End Theorems.
 Definition corner_prog : program := fun id => if id =? 1 then [(3, 0, false)] else [].
 Definition corner_init : list ev := [mk_ev 1 10 true; mk_ev 2 10 true].
 Definition corner_oracle : list tid :=
-  [TE; TE; TE; TE; TE; TE; TW 0%nat; TW 0%nat; TW 0%nat; TW 1%nat].
+  [TE; TE; TE; TE; TE; TE; TE; TW 0%nat; TW 0%nat; TW 0%nat; TW 1%nat].
 
 Lemma corner_refuted :
-  let s := e_run corner_prog corner_oracle (e_init 1 corner_init) in
+  let s := e_run corner_prog corner_oracle (e_init_ctl 1 corner_init []) in
   rev (e_trace s) = [LStart (mk_ev 1 10 true); LSched (mk_ev 1 10 true) (mk_ev 3 10 false); LStart (mk_ev 2 10 true)] /\
   phase_literal_ok corner_init (rev (e_trace s)) = false /\
   par_trace_ok corner_init (rev (e_trace s)) = true.
